@@ -130,6 +130,7 @@ pub fn execute(ctx: &mut Ctx, lines: &[String]) -> Vec<(Vec<String>, Vec<String>
     let mut ans: Vec<String> = Vec::new();
     let mut threads: Vec<Vec<Vec<u8>>> = Vec::new();
     let mut nested: Vec<Vec<bool>> = Vec::new();
+    let mut failing_before: Vec<Vec<bool>> = Vec::new();
     let mut mode = "sync".to_string();
     let mut spec: Option<SpecP> = None;
     let mut cfg: Option<CfgP> = None;
@@ -154,6 +155,12 @@ pub fn execute(ctx: &mut Ctx, lines: &[String]) -> Vec<(Vec<String>, Vec<String>
                 // `R<hex>`: this line is logged from INSIDE the formatting of the thread's next line
                 // (a `Display` argument that logs: the recursion fallback of the writer)
                 while nested.len() <= tid { nested.push(vec![]); }
+                // `F<hex>`: before this line the thread logs a record whose FORMAT FUNCTION fails after it has
+                // produced part of its output (asynchronous file mode: the record is not accepted and
+                // nothing of it may show up — neither as a line nor inside a later record)
+                while failing_before.len() <= tid { failing_before.push(vec![]); }
+                failing_before[tid] = ls.iter().map(|h| h.starts_with('F')).collect();
+                let ls: Vec<&str> = ls.iter().map(|h| h.trim_start_matches('F')).collect();
                 nested[tid] = ls.iter().map(|h| h.starts_with('R')).collect();
                 threads[tid] = ls.iter().map(|h| unhex(h.trim_start_matches('R')).unwrap()).collect();
                 eff.push(format!("THREAD {tid} {}", ls.iter().map(|h| h.trim_start_matches('R')).collect::<Vec<_>>().join(" ")));
@@ -181,12 +188,16 @@ pub fn execute(ctx: &mut Ctx, lines: &[String]) -> Vec<(Vec<String>, Vec<String>
                     let w = w.clone();
                     let ls = ls.clone();
                     let flags = nested.get(tid).cloned().unwrap_or_default();
+                    let fails = failing_before.get(tid).cloned().unwrap_or_default();
                     let barrier = barrier.clone();
                     joins.push(std::thread::Builder::new().name(format!("worker{tid}")).spawn(move || {
                         barrier.wait();
                         let text = |l: &Vec<u8>| String::from_utf8(l[..l.len() - 1].to_vec()).unwrap();
                         let mut i = 0;
                         while i < ls.len() {
+                            if fails.get(i).copied().unwrap_or(false) {
+                                let _ = LogWriter::write(&*w, &mut DeferredNow::new(), &Record::builder().level(log::Level::Info).args(format_args!("{}{}", crate::props::flw::FAILFMT, i)).build());
+                            }
                             if flags.get(i).copied().unwrap_or(false) && i + 1 < ls.len() {
                                 let arg = Nested { w: &w, inner: text(&ls[i]), outer: text(&ls[i + 1]) };
                                 LogWriter::write(&*w, &mut DeferredNow::new(), &Record::builder().level(log::Level::Info).args(format_args!("{}", arg)).build()).unwrap();
@@ -328,11 +339,13 @@ pub fn gen_c03(tier: &str, seed: u64) -> Vec<Vec<String>> {
             let nl = r.range(3, if tier == "thorough" { 60 } else { 25 }) as usize;
             let recursive = r.chance(1, 3);
             let long = r.chance(1, 3);
+            // asynchronous file output: now and then a record whose format function fails half-way
+            let failfmt = mode == "async" && k % 3 != 2 && !recursive && r.chance(1, 2);
             let ls: Vec<String> = (0..nl).map(|i| {
                 // now and then a record far above every buffer size the crate keeps between records
                 let len = if long && r.chance(1, 40) { *r.pick(&[9_000usize, 20_000, 70_000]) } else { *r.pick(&[8usize, 12, 20, 35, 64, 130]) };
                 let h = hex(&line_for(t, i, len));
-                if recursive && i + 1 < nl && r.chance(1, 3) { format!("R{h}") } else { h }
+                if recursive && i + 1 < nl && r.chance(1, 3) { format!("R{h}") } else if failfmt && r.chance(1, 6) { format!("F{h}") } else { h }
             }).collect();
             // now and then a record whose whole text is one letter — among them the letters the
             // asynchronous writers use as in-band control messages (what tells a record from them is
